@@ -2,6 +2,7 @@ package main
 
 import (
 	"fmt"
+	"github.com/goatcms/goatcore/app/modules/pipelinem/pipservices"
 	"runtime"
 	"strconv"
 	"strings"
@@ -119,11 +120,13 @@ func newStack(x *execRun, params goatapp.Params) (mapp *goatapp.MockupApp, bs ap
 	}
 	mapp.Terminal().SetCommand(terminal.NewCommand(terminal.CommandParams{Name: "probe", Callback: x.probe}))
 	var deps struct {
-		Terminal termservices.Terminal `dependency:"TerminalService"`
+		Terminal  termservices.Terminal        `dependency:"TerminalService"`
+		Sandboxes pipservices.SandboxesManager `dependency:"PipSandboxesManager"`
 	}
 	if err = mapp.DependencyProvider().InjectTo(&deps); err != nil {
 		return
 	}
+	deps.Sandboxes.Add(failSandboxBuilder{})
 	return mapp, bs, deps.Terminal, nil
 }
 
@@ -429,3 +432,16 @@ func execute(p *caseProg, x *execRun, hk *hookCtl) (out caseOutcome) {
 	}
 	return out
 }
+
+// failSandboxBuilder provides the sandbox "c16fail": Run reports a failure only through the returned
+// error, the way the ssh and container sandboxes do (the self sandbox also records it on the scope).
+type failSandboxBuilder struct{}
+
+func (failSandboxBuilder) Is(name string) bool { return name == "c16fail" }
+func (failSandboxBuilder) Build(name string) (pipservices.Sandbox, error) {
+	return failSandbox{}, nil
+}
+
+type failSandbox struct{}
+
+func (failSandbox) Run(ctx app.IOContext) error { return fmt.Errorf("exit status 1") }
